@@ -378,6 +378,12 @@ def run_case(case, ctx):
                     "first_returned": r1, "second_returned": r2}
         return unchanged("second estimate_speed")
 
+    if (n + int(ms[-1] // 1000)) % 4 == 0:
+        # degenerate request first: a smoothed speed over a window wider than the track is refused (a warning, no
+        # result); the plain requests below follow on the same track object
+        M.call(tr.estimate_speed, n + 3)
+        ctx.count("refused_smoothed_speed_request_first")
+        cls.append("after_refused_request")
     steps = [do_abs_curv, do_speed] if order == "abs_curv_first" else [do_speed, do_abs_curv]
     for st in steps:
         w = st()
@@ -426,6 +432,31 @@ def run_case(case, ctx):
                 w.update({"pts": pts, "ms": list(ms), "order": order, "moved_to": P2, "retimed_to": ms2})
                 return violated(w, sig, nontrivial, cls + ["recompute_after_edit"])
             cls.append("recompute_after_edit")
+    # alternative entry points to the same feature: the operator interface (per-leg feature 'ds' integrated in place
+    # under the name abs_curv) and the expression shorthand I{ds}
+    if (n + int(ms[0] // 1000)) % 3 == 0:
+        from tracklib.algo.analytics import ds as af_ds0
+        from tracklib.core.operators import Operator
+        tr4 = gen.make_track([tuple(p) for p in pts], ms)
+        r = M.call(tr4.addAnalyticalFeature, af_ds0, "abs_curv")
+        if not M.is_raised(r):
+            r = M.call(tr4.operate, Operator.INTEGRATOR, "abs_curv")
+        f = M.call(tr4.getAnalyticalFeature, "abs_curv")
+        ctx.monitor("abs_curv.operator_interface")
+        w = ({"what": "ds + INTEGRATOR (in place) raised", "raised": r} if M.is_raised(r) else None) \
+            or _check_abs_curv(f, P, ctx, "feature (ds integrated in place through the operator interface)")
+        if not w:
+            tr5 = gen.make_track([tuple(p) for p in pts], ms)
+            r = M.call(tr5.addAnalyticalFeature, af_ds0, "ds")
+            if not M.is_raised(r):
+                r = M.call(tr5.operate, "abs_curv=I{ds}")
+            f = M.call(tr5.getAnalyticalFeature, "abs_curv")
+            w = ({"what": "abs_curv=I{ds} raised", "raised": r} if M.is_raised(r) else None) \
+                or _check_abs_curv(f, P, ctx, "feature (expression abs_curv=I{ds})")
+        if w:
+            w.update({"pts": pts, "ms": list(ms), "order": order})
+            return violated(w, sig, nontrivial, cls + ["operator_interface"])
+        cls.append("operator_interface")
     # call history on a second track object: the per-leg feature 'ds' is computed by the user, the track is then
     # trimmed at its ends (the legs that remain keep their lengths), and the abscissa is computed on what is left
     if n >= 3:
